@@ -1,41 +1,59 @@
-(* Preservation of the overlay invariant of SemLive.v, part D: L4 (a flagged blocker gets its token), L5 (a delivered token is seen by the owner). *)
+(* Preservation of the overlay invariant of SemLive.v, part D: L4 (a flagged blocker gets its token), L5 (a delivered token is seen by the owner).
+   Each lemma is assembled from one lemma per control point of the stepping actor (files SemLiveL4.v, SemLiveL5a.v, SemLiveL5b.v;
+   the proof script of the clause is an Ltac in SemLiveTac.v). *)
 From Coq Require Import List Arith ZArith Bool Lia.
 Import ListNotations.
-Require Import MayV.Sync.SemModel MayV.Sync.SemInv MayV.Sync.SemTac MayV.Sync.SemLive MayV.Sync.SemLiveA MayV.Sync.SemLiveB.
+Require Import MayV.Sync.SemModel MayV.Sync.SemInv MayV.Sync.SemTac MayV.Sync.SemCase MayV.Sync.SemLive.
+Require Export MayV.Sync.SemLiveTac.
+Require Import MayV.Sync.SemLiveL4 MayV.Sync.SemLiveL5a MayV.Sync.SemLiveL5b.
 Open Scope Z_scope.
-
-Ltac upd_hyps2 := upd_hyps; repeat match goal with
-  | H : context [upd ?f ?i ?v ?j] |- _ =>
-      let e := fresh "e" in destruct (Nat.eq_dec j i) as [e|e];
-      [ rewrite e in H; rewrite (upd_eq f i v) in H | rewrite (upd_neq f i j v e) in H ]
-  end.
 
 Lemma pres_L4 s o ac s' : Inv s -> LInv s o -> step s ac = Some s' -> L4 s' (lstep s o ac).
 Proof.
-  intros Hi HL H. pose proof (IL4 _ _ HL) as P4. pose proof (IL1 _ _ HL) as P1.
-  unfold L1, L4, holds3, agentpc in *.
-  lsetup Hi H; intro x; pose proof (P4 x) as Px; pose proof (P1 a) as Aa; pose proof (P1 (ag o x)) as Ag.
-  all: unfold set_pc, set_ctx, set_res, set_av; upd_tac; upd_hyps2; prj_all; lists.
-  all: try assumption.
-  all: a_facts Hi a; b_facts Hi x.
-  all: try match goal with E : NoDup (?n :: _) |- _ => b_facts Hi n; inversion E; subst end.
-  all: try match goal with E : q _ = _ :: _ |- _ => rewrite E in * end.
-  all: repeat match goal with e : ?v = _ |- _ => is_var v; subst v end; upd_hyps; prj_all.
-  all: repeat match goal with e : ag _ _ = _ |- _ => progress (rewrite e in * ) end.
-  all: ctxsplit s a; pcs; lists.
-  all: intros; brk; arith_prem; brk; try mem.
+  intros Hi HL H. destruct (is_step ac) eqn:Hn; [|eapply pres_L4_env; eassumption].
+  destruct ac as [a t|a|a|a|a|a]; try discriminate Hn. destruct (apc (A s a)) eqn:Epc.
+  - rewrite (step_idle s a Epc) in H. discriminate H.
+  - eapply pres_L4_W0; eassumption.
+  - eapply pres_L4_W0c; eassumption.
+  - eapply pres_L4_W1; eassumption.
+  - eapply pres_L4_W2; eassumption.
+  - eapply pres_L4_WP; eassumption.
+  - eapply pres_L4_WW; eassumption.
+  - eapply pres_L4_E1; eassumption.
+  - eapply pres_L4_E2; eassumption.
+  - eapply pres_L4_E3; eassumption.
+  - eapply pres_L4_E4; eassumption.
+  - eapply pres_L4_P0; eassumption.
+  - eapply pres_L4_K1; eassumption.
+  - eapply pres_L4_K2; eassumption.
+  - eapply pres_L4_K3; eassumption.
+  - eapply pres_L4_K4; eassumption.
+  - eapply pres_L4_Y0; eassumption.
+  - eapply pres_L4_Y0c; eassumption.
+  - eapply pres_L4_G0; eassumption.
 Qed.
 
 Lemma pres_L5 s o ac s' : Inv s -> LInv s o -> step s ac = Some s' -> L5 s' (lstep s o ac).
 Proof.
-  intros Hi HL H. pose proof (IL5 _ _ HL) as P5. pose proof (IL6 _ _ HL) as P6. pose proof (IL7 _ _ HL) as P7.
-  unfold L5, L6, L7, own, prepark, inpark in *.
-  lsetup Hi H; intro x; pose proof (P5 x) as Px; pose proof (P6 a) as Pa; pose proof (P6 (owner (Bk s x))) as Po; pose proof (P7 x) as Fx; pose proof (P7 (nextb s)) as Fn.
-  all: unfold set_pc, set_ctx, set_res, set_av; upd_tac; upd_hyps2; prj_all; lists.
-  all: try assumption.
-  all: a_facts Hi a; a_facts Hi O; b_facts Hi x.
-  all: repeat match goal with e : ?v = _ |- _ => is_var v; subst v end; upd_hyps; prj_all.
-  all: repeat match goal with e : owner _ = _ |- _ => progress (rewrite e in * ) end.
-  all: ctxsplit s a; pcs; lists.
-  all: intros; brk; arith_prem; brk; try mem.
+  intros Hi HL H. destruct (is_step ac) eqn:Hn; [|eapply pres_L5_env; eassumption].
+  destruct ac as [a t|a|a|a|a|a]; try discriminate Hn. destruct (apc (A s a)) eqn:Epc.
+  - rewrite (step_idle s a Epc) in H. discriminate H.
+  - eapply pres_L5_W0; eassumption.
+  - eapply pres_L5_W0c; eassumption.
+  - eapply pres_L5_W1; eassumption.
+  - eapply pres_L5_W2; eassumption.
+  - eapply pres_L5_WP; eassumption.
+  - eapply pres_L5_WW; eassumption.
+  - eapply pres_L5_E1; eassumption.
+  - eapply pres_L5_E2; eassumption.
+  - eapply pres_L5_E3; eassumption.
+  - eapply pres_L5_E4; eassumption.
+  - eapply pres_L5_P0; eassumption.
+  - eapply pres_L5_K1; eassumption.
+  - eapply pres_L5_K2; eassumption.
+  - eapply pres_L5_K3; eassumption.
+  - eapply pres_L5_K4; eassumption.
+  - eapply pres_L5_Y0; eassumption.
+  - eapply pres_L5_Y0c; eassumption.
+  - eapply pres_L5_G0; eassumption.
 Qed.
